@@ -232,10 +232,28 @@ def basicVerdict (secrets : List (List Char × List Char)) (cred : Option (List 
   | none => false
   | some (u, p) => secrets.lookup u == some p
 
+/-- One event in the life of a basic-auth scheme instance: a request with (or without) credentials, or the
+refresh goroutine reloading the htpasswd file with new contents. -/
+inductive AuthOp where
+  | attempt (cred : Option (List Char × List Char))
+  | reload (secrets : List (List Char × List Char))
+
+/-- The htpasswd contents in force after a history. -/
+def fileAfter (secrets : List (List Char × List Char)) : List AuthOp → List (List Char × List Char)
+  | [] => secrets
+  | .attempt _ :: h => fileAfter secrets h
+  | .reload s :: h => fileAfter s h
+
+/-- The verdicts of the attempts of a history, in order: the scheme holds no state besides the file. -/
+def runAuth (secrets : List (List Char × List Char)) : List AuthOp → List Bool
+  | [] => []
+  | .attempt c :: h => basicVerdict secrets c :: runAuth secrets h
+  | .reload s :: h => runAuth s h
+
 /-! ## The order of the gate (sequential model of `ServeHTTP` / `ServeTCP`) -/
 
 inductive Step where
-  | lookup | access | auth | upstream
+  | lookup | access | auth | redirect | upstream
 deriving DecidableEq, Repr
 
 /-- What the request meets: is there a route, do the rules deny it, does the scheme accept it. -/
@@ -243,9 +261,11 @@ structure Env where
   found : Bool
   denied : Bool
   authorized : Bool
+  /-- the route carries a valid `redirect=3xx` option: fabio answers itself, no upstream -/
+  redirect : Bool := false
 
 inductive Reply where
-  | noRoute | forbidden | unauthorized | served
+  | noRoute | forbidden | unauthorized | redirected | served
 deriving DecidableEq, Repr
 
 /-- Run the statements in order. Each gate statement is an `if … { reply; return }`; `upstream` marks the first
@@ -255,6 +275,7 @@ def runGate (env : Env) : List Step → Bool → Reply × Bool
   | .lookup :: ss, c => if env.found then runGate env ss c else (.noRoute, c)
   | .access :: ss, c => if env.denied then (.forbidden, c) else runGate env ss c
   | .auth :: ss, c => if env.authorized then runGate env ss c else (.unauthorized, c)
+  | .redirect :: ss, c => if env.redirect then (.redirected, c) else runGate env ss c
   | .upstream :: ss, _ => runGate env ss true
 
 /-- The steps before the first upstream contact. -/
@@ -263,10 +284,17 @@ def beforeUpstream (ss : List Step) : List Step := ss.takeWhile (· != .upstream
 /-- All of `gates` happen before the first upstream contact. -/
 def gateOrdered (gates ss : List Step) : Bool := gates.all (fun g => (beforeUpstream ss).contains g)
 
+/-- The steps before the redirect answer. -/
+def beforeRedirect (ss : List Step) : List Step := ss.takeWhile (· != .redirect)
+
+/-- All of `gates` happen before the redirect answer. -/
+def redirectOrdered (gates ss : List Step) : Bool := gates.all (fun g => (beforeRedirect ss).contains g)
+
 def stepOfString : String → Option Step
   | "lookup" => some .lookup
   | "access" => some .access
   | "auth" => some .auth
+  | "redirect" => some .redirect
   | "upstream" => some .upstream
   | _ => none
 
